@@ -63,6 +63,9 @@ fn main() {
     }
     if a.len() >= 3 && a[1] == "check" {
         let seed: u64 = a.get(3).and_then(|s| s.parse().ok()).unwrap_or(0);
+        // 4th argument: how many seeded multi-step buildings / corruption rounds (quick 60, thorough 600)
+        let n: usize = a.get(4).and_then(|s| s.parse().ok()).unwrap_or(60);
+        preds::set_scale(n);
         let rep = preds::check(&a[2], seed);
         println!("{}", rep);
         return;
